@@ -185,6 +185,7 @@ pub fn final_liveness(r: &mut Runner) {
     if !r.oracles.c04 {
         return
     }
+    crate::net::set_quiet(true);
     let rounds = crate::c02::settle(r, 8);
     if r.dead.is_some() {
         return
